@@ -215,7 +215,7 @@ Inductive bop :=
 | BMulAssignS (x : T) | BDivAssignS (x : T) | BAddAssignS (x : T) | BSubAssignS (x : T)
 (* value-returning *)
 | BGet (i j : nat) | BGetAll | BNeg | BAdd (C : banded) | BSub (C : banded) | BScale (x : T) | BDiv (x : T)
-| BMulV (v : list T) | BSolve (b : list T) | BDet | BSize.
+| BMulV (v : list T) | BSolve (b : list T) | BDet | BSize | BDump.
 
 Inductive bval := WNone | WS (x : T) | WV (v : list T) | WB (B : banded) | WN (a b c : nat)
                 | WAll (l : list (res T)).
@@ -247,6 +247,7 @@ Definition bstep (B : banded) (o : bop) : res (banded * bval) :=
   | BSolve b => let* x := band_solve B b in Ok (B, WV x)
   | BDet => let* d := band_det B in Ok (B, WS d)
   | BSize => Ok (B, WN (bn B) (bm1 B) (bm2 B))
+  | BDump => Ok (B, WB B)
   end.
 
 Variable flat : T -> list Z.
@@ -256,18 +257,20 @@ Definition fl_band (B : banded) : list Z :=
   fl_nat (bn B) ++ fl_nat (bm1 B) ++ fl_nat (bm2 B) ++ fl_cmat (compact B).
 Definition fl_bval (v : bval) : list Z :=
   match v with
-  | WNone => [] | WS x => flat x | WV v => fl_list flat v | WB B => fl_band B
+  | WNone => fl_nat 0 | WS x => flat x | WV v => fl_list flat v | WB B => fl_band B
   | WN a b c => fl_nat a ++ fl_nat b ++ fl_nat c
   | WAll l => concat (map (fl_res flat) l)
   end.
 
+(* the state is dumped by the explicit operation BDump only; an operation without a result
+   answers [0] so that a panic item always belongs to the operation at whose place it stands *)
 Fixpoint brun_out (B : banded) (ops : list bop) : list Z :=
   match ops with
   | [] => []
   | o :: t =>
       match bstep B o with
-      | Ok (B', v) => fl_bval v ++ fl_band B' ++ brun_out B' t
-      | Panic k => fl_panic k ++ fl_band B ++ brun_out B t
+      | Ok (B', v) => fl_bval v ++ brun_out B' t
+      | Panic k => fl_panic k ++ brun_out B t
       end
   end.
 Definition band_hist (B : banded) (ops : list bop) : list Z := fl_band B ++ brun_out B ops.
